@@ -49,6 +49,18 @@ func runBatch(id string, ops []string, seed int64) {
 	app.VerifReset()
 	fakecmd.Reset()
 	app.VerifTraceFn, app.VerifGateFn = nil, nil
+	var dbgMu sync.Mutex
+	var dbg []string
+	if os.Getenv("VERIF_CONC_STACKS") != "" { // debugging aid: the events of the run, printed when a call blocks
+		t0 := time.Now()
+		note := func(s string) {
+			dbgMu.Lock()
+			dbg = append(dbg, fmt.Sprintf("%7.3fms %s", float64(time.Since(t0).Microseconds())/1000, s))
+			dbgMu.Unlock()
+		}
+		app.VerifTraceFn = func(ev string, proc string, inst int64, kv []any) { note(fmt.Sprintf("%s %s#%d %v", ev, proc, inst, kv)) }
+		app.VerifGateFn = func(proc string, inst int64, point string) { note(fmt.Sprintf("gate %s %s#%d", point, proc, inst)) }
+	}
 	app.VerifBackoffFn = func(proc string, inst int64, d time.Duration) (time.Duration, bool) { return d / 200, true }
 	app.VerifCommanderFn = func(info app.VerifLaunchInfo) command.Commander {
 		b := fakecmd.Behaviour{ExitMode: "signal", SigCode: -1}
@@ -83,7 +95,12 @@ func runBatch(id string, ops []string, seed int64) {
 		}()
 		_ = runner.Run()
 	}()
-	time.Sleep(5 * time.Millisecond)
+	// the API is usable once Run() has begun (it creates the registries): wait for the first registered instance
+	for t0 := time.Now(); time.Since(t0) < 2*time.Second; time.Sleep(200 * time.Microsecond) {
+		if running, done := runner.VerifRegistries(); len(running)+len(done) > 0 {
+			break
+		}
+	}
 	names := []string{"svc", "loop", "job", "nosuch"}
 	var iters sync.Map
 	var inflight sync.Map // op -> start time of the call in flight
@@ -184,6 +201,26 @@ func runBatch(id string, ops []string, seed int64) {
 			shutBlocked = true
 		}
 	}
+	blockedSites := []string{}
+	if len(blocked) > 0 || shutBlocked {
+		// where the goroutines of the supervisor are parked: the first process-compose frame of every goroutine
+		buf := make([]byte, 1<<20)
+		buf = buf[:runtime.Stack(buf, true)]
+		if os.Getenv("VERIF_CONC_STACKS") != "" {
+			os.Stderr.Write(buf)
+			dbgMu.Lock()
+			os.Stderr.WriteString("\n\nEVENTS\n" + strings.Join(dbg, "\n") + "\n")
+			dbgMu.Unlock()
+		}
+		seen := map[string]bool{}
+		for _, g := range strings.Split(string(buf), "\n\n") {
+			if m := frameRe.FindStringSubmatch(g); m != nil && !seen[m[1]] {
+				seen[m[1]] = true
+				blockedSites = append(blockedSites, m[1])
+			}
+		}
+		sort.Strings(blockedSites)
+	}
 	its := [][]any{}
 	iters.Range(func(k, v any) bool { its = append(its, []any{k, v}); return true })
 	sort.Slice(its, func(a, b int) bool { return its[a][0].(string) < its[b][0].(string) })
@@ -193,7 +230,7 @@ func runBatch(id string, ops []string, seed int64) {
 		panics = []map[string]any{}
 	}
 	rec := map[string]any{"kind": "conc", "id": id, "ops": ops, "iterations": its, "panics": panics, "blocked": blocked,
-		"runBlocked": shutBlocked, "fatal": "", "fatalSite": ""}
+		"runBlocked": shutBlocked, "fatal": "", "fatalSite": "", "blockedSites": blockedSites}
 	pmu.Unlock()
 	b, _ := json.Marshal(rec)
 	b = bytes.ReplaceAll(b, []byte(":null"), []byte(":[]"))
@@ -290,7 +327,7 @@ func ConcMain(args []string) {
 						site = m[1]
 					}
 					rec := map[string]any{"kind": "conc", "id": id, "ops": j.ops, "iterations": []any{}, "panics": []any{}, "blocked": []string{},
-						"runBlocked": false, "fatal": msg, "fatalSite": site}
+						"runBlocked": false, "fatal": msg, "fatalSite": site, "blockedSites": []string{}}
 					b, _ := json.Marshal(rec)
 					line = string(b)
 				}
